@@ -83,6 +83,51 @@ type mapState struct {
 	Val string // (Array K V) for scalar V; "" when unsupported
 	KS  string
 	VS  string
+	// struct-valued maps: one (Array K leafSort) per flattened scalar field
+	Leaves []leaf
+	LVals  []string
+	VT     types.Type
+}
+
+// mapLoadStruct assembles the struct value stored under key k.
+func (e *Engine) mapLoadStruct(st *State, ms *mapState, k string) Value {
+	v := e.zeroShape(st, ms.VT)
+	for i := 0; i < len(ms.Leaves); i++ {
+		l := ms.Leaves[i]
+		if l.sub == "" {
+			v = setPath(v, l.path, Sc{app("select", ms.LVals[i], k), l.sort})
+			continue
+		}
+		get := func(j int) string { return app("select", ms.LVals[i+j], k) }
+		v = setPath(v, l.path, SliceV{Ref: get(0), Off: get(1), Len: get(2), Cap: get(3), Elem: l.elem})
+		i += 3
+	}
+	return v
+}
+
+func (ms *mapState) storeStruct(k string, v Value) bool {
+	for i := 0; i < len(ms.Leaves); i++ {
+		l := ms.Leaves[i]
+		x := getPath(v, l.path)
+		if l.sub == "" {
+			sc, ok := x.(Sc)
+			if !ok {
+				return false
+			}
+			ms.LVals[i] = app("store", ms.LVals[i], k, sc.T)
+			continue
+		}
+		sl, ok := x.(SliceV)
+		if !ok {
+			return false
+		}
+		ms.LVals[i] = app("store", ms.LVals[i], k, sl.Ref)
+		ms.LVals[i+1] = app("store", ms.LVals[i+1], k, sl.Off)
+		ms.LVals[i+2] = app("store", ms.LVals[i+2], k, sl.Len)
+		ms.LVals[i+3] = app("store", ms.LVals[i+3], k, sl.Cap)
+		i += 3
+	}
+	return true
 }
 
 type chanState struct {
@@ -147,6 +192,7 @@ func (s *State) clone() *State {
 	}
 	for k, v := range s.maps {
 		c := *v
+		c.LVals = append([]string(nil), v.LVals...)
 		n.maps[k] = &c
 	}
 	for k, v := range s.chans {
@@ -418,6 +464,12 @@ func (e *Engine) freshMap(s *State, mt *types.Map, hint string) Value {
 	if vs, vok := scalarSort(mt.Elem()); vok {
 		ms.VS = vs
 		ms.Val = s.freshConst(hint+"_val", fmt.Sprintf("(Array %s %s)", ks, vs))
+	} else if _, isStruct := mt.Elem().Underlying().(*types.Struct); isStruct {
+		ms.VT = mt.Elem()
+		ms.Leaves, _ = leavesOf(mt.Elem())
+		for _, l := range ms.Leaves {
+			ms.LVals = append(ms.LVals, s.freshConst(hint+"_"+sanitizeIdent(l.key), fmt.Sprintf("(Array %s %s)", ks, l.sort)))
+		}
 	}
 	s.maps[id] = ms
 	return MapV{ID: id, KT: mt.Key(), VT: mt.Elem()}
